@@ -379,6 +379,15 @@ func (fr *Frame) enterLoop(li *loopInfo, ins []*State, predIdx []int) (*State, e
 			}
 			lr.skipFrame[c] = true
 		}
+		if fr.contract != nil && fr.contract.Opts["noloopframe"] && fr.depth == 0 {
+			// the contract asks for no automatic loop frame: nothing is assumed about the
+			// components written in the loop beyond its invariants, and nothing is to be proved
+			if lr.skipFrame == nil {
+				lr.skipFrame = map[string]bool{}
+			}
+			lr.skipFrame[c] = true
+			continue
+		}
 		r.assume(hst, frameFormula(nw, old, entrySt.alloc, S))
 	}
 	for _, in := range b.Instrs {
@@ -462,7 +471,7 @@ func (fr *Frame) backEdge(li *loopInfo, from *ssa.BasicBlock, st *State) error {
 		save := fr.cur
 		fr.cur = from
 		for _, cl := range as {
-			env := &evalEnv{fr: fr, st: st, old: fr.entry, names: names, preNames: fr.phiNames(li, hdr, lr.iter), loopEntry: lr.entry, loopEntryNames: fr.phiNames(li, lr.entryPhi, intV(bvLit(0, 64)))}
+			env := &evalEnv{fr: fr, st: st, old: fr.entry, names: names, preNames: fr.phiNames(li, hdr, lr.iter), loopHead: lr.header, loopEntry: lr.entry, loopEntryNames: fr.phiNames(li, lr.entryPhi, intV(bvLit(0, 64)))}
 			g, err := fr.evalBoolEnv(cl.E, env)
 			if err != nil {
 				return fmt.Errorf("loop %d assert %s: %v", li.ordinal, cl.Label, err)
